@@ -79,9 +79,12 @@ fn c28_monotone_contiguous() {
     let d = SpaceDescriptor::create_descriptor();
     let (n0, n1): (usize, usize) = (kani::any(), kani::any());
     kani::assume(n0 >= 1 && n0 <= (1 << 25) && n1 >= 1 && n1 <= (1 << 25));
-    // request 0
-    let r0 = pr.reserve_pages(n0);
-    assert!(r0 == n0 && pr.reserved_pages() == n0 && pr.committed_pages() == 0, "C28.reserve_pages.exact");
+    // request 0: the caller may have reserved fewer pages than the resource ends up granting (q0 <= n0); commit_pages
+    // accounts for the difference
+    let q0: usize = kani::any();
+    kani::assume(q0 <= n0);
+    let r0 = pr.reserve_pages(q0);
+    assert!(r0 == q0 && pr.reserved_pages() == q0 && pr.committed_pages() == 0, "C28.reserve_pages.exact");
     let g0 = pr.get_new_pages(d, r0, n0, VMThread::UNINITIALIZED);
     let mut next = start;
     let mut granted = 0;
@@ -95,7 +98,7 @@ fn c28_monotone_contiguous() {
         }
         Err(_) => {
             assert!(n0 > pages_total, "C28.monotone.fails_only_if_request_does_not_fit");
-            assert!(pr.reserved_pages() == n0 && pr.committed_pages() == 0, "C28.monotone.failure_leaves_counters");
+            assert!(pr.reserved_pages() == q0 && pr.committed_pages() == 0, "C28.monotone.failure_leaves_counters");
             pr.clear_request(r0);
             assert!(pr.reserved_pages() == 0, "C28.clear_request.exact");
         }
